@@ -259,6 +259,9 @@ func evalCase(r *rep.Run, e *sys.Env, c Case, idx int) {
 			if _, ok := req.Body.(message.BranchRegisterRequest); ok {
 				armed = true // from the registration reply on, the coordinator may decide to roll back
 			}
+			if _, ok := req.Body.(message.BranchReportRequest); ok && c.Kind == "report-fails" {
+				return faketc.Answer{Kind: "transport"}
+			}
 			return faketc.Answer{}
 		}
 		var bizErr string
@@ -368,6 +371,12 @@ func Enumerate(getEnv func() *sys.Env, thorough bool, yield func(idx int, c Case
 		}
 		for k := 0; k < 12; k++ {
 			yield(idx, Case{b.s.ID, b.st, "late-phase-one", k, ""})
+			idx++
+		}
+		// ... and the same while the branch's phase-one-failed report can never be delivered (the coordinator has already
+		// forgotten the rolled-back global transaction)
+		for k := 0; k < 6; k++ {
+			yield(idx, Case{b.s.ID, b.st, "late-phase-one", k, "report-fails"})
 			idx++
 		}
 	}
